@@ -14,7 +14,7 @@ LEAN_MODULES = ["Properties.C03", "Properties.C03p", "Properties.Core", "Propert
 RULE = (
     "exhaustive: every shape string of <=4 dimensions over {0,2,3,a,c=2} with the marker (none / ... / *g) in every position x every array "
     "shape of rank 0..5 (quick) / 0..6 (thorough) over sizes {0,2,3} (sampled where the product is large) x accepted / rejected dtype (every (shape string, rank) pair meets both, in each library, rank 0 included); plus the "
-    "class x dtype matrix (every exported class x every dtype numpy / torch / jax can put on an array) on two fixed shapes. The verdict and the report (kind, axis index in the actual tensor, expected, actual) are judged "
+    "class x dtype matrix (every exported class x every dtype numpy / torch / jax can put on an array) on three fixed shapes (`a b`, `...` and the scalar annotation `[None]`); literal axes of 256 … 65536. The verdict and the report (kind, axis index in the actual tensor, expected, actual) are judged "
     "by an independent oracle (oracle.spec_check). non-trivial = distinct (shape string, array shape) pair with at least one literal or marker"
 )
 DIMS = ["0", "2", "3", "a", "c=2"]
@@ -63,8 +63,18 @@ def cases(tier, rng, run):
         for lib, nm, cat in meta["dtypes"]:
             if cat == "bfloat16" and lib != 1:
                 continue   # (the documentation makes no claim)
-            for s, sh in (("a b", (2, 3)), ("...", ())):
-                out.append(Case(f"CHECK\t{cls},0,{s}\t{lib}:{nm}\t{'.'.join(map(str, sh))}", "matrix", {"dims": s.split(), "cls": cls, "dt": f"{lib}:{nm}", "shape": sh}))
+            for s, sh in (("a b", (2, 3)), ("...", ()), ("<None>", ())):
+                out.append(Case(f"CHECK\t{cls},0,{s}\t{lib}:{nm}\t{'.'.join(map(str, sh))}", "matrix", {"dims": None if s == "<None>" else s.split(), "cls": cls, "dt": f"{lib}:{nm}", "shape": sh}))
+    # literal axes beyond the small integers CPython keeps as singletons (equality, not identity, is what counts), aligned from
+    # the front and from the back; the other axes have size 0 so that nothing large is allocated
+    for lit in (256, 257, 512, 1024, 65536):
+        for s, good in ((f"b {lit}", (0, lit)), (f"... {lit}", (0, 0, lit)), (f"{lit} *g b", (lit, 0, 0)), (f"*g dim={lit}", (0, lit)), (f"{lit}", (lit,))):
+            for delta in (0, 1, -1):
+                sh = tuple(x + delta if x == lit else x for x in good)
+                for lib in (0, 1, 2):
+                    if lib != 0 and max(sh) > 2048 and 0 not in sh:
+                        continue
+                    out.append(Case(f"CHECK\tFloatTensor,0,{s}\t{lib}:float32\t{'.'.join(map(str, sh))}", "biglit", {"dims": s.split(), "cls": "FloatTensor", "dt": f"{lib}:float32", "shape": sh}))
     return out
 
 
